@@ -98,18 +98,26 @@ def st_mtree(draw, n_min=1, n_max=5, outliers=False, max_outliers=None, empty_bl
     rest = list(indices)
     if outliers and n > 0:
         mo = n if max_outliers is None else min(n, max_outliers)
-        flags = draw(st.lists(st.booleans(), min_size=n, max_size=n))
-        out = [i for i, f in zip(indices, flags) if f][:mo]
-        if min_clones > 0 and len(out) == n:
-            out = out[:-1]
+        # number of outliers first (booleans per point make all-outlier trees dominate), then which points
+        n_out = min(mo, draw(st.sampled_from([0, 1, 0, 2, 3, n, 1])))
+        if min_clones > 0:
+            n_out = min(n_out, n - 1)
+        out = sorted(draw(st.permutations(indices))[:n_out]) if n_out else []
         rest = [i for i in indices if i not in out]
     # restricted-growth string -> set partition
     blocks = []
+    # partition style: Hypothesis favours small integers, i.e. few big blocks; many-clone trees must not be rare
+    part = draw(st.sampled_from(["random", "singletons", "random", "mostly-new"])) if len(rest) > 2 else "random"
     for i in rest:
         if n_roots is not None and len(blocks) < n_roots:
             blocks.append([i])
             continue
-        b = draw(st.integers(0, len(blocks)))
+        if part == "singletons":
+            b = len(blocks)
+        elif part == "mostly-new":
+            b = len(blocks) - draw(st.integers(0, 1)) if blocks else 0
+        else:
+            b = draw(st.integers(0, len(blocks)))
         if b == len(blocks):
             blocks.append([i])
         else:
@@ -122,11 +130,22 @@ def st_mtree(draw, n_min=1, n_max=5, outliers=False, max_outliers=None, empty_bl
     # any rooted forest: process blocks in a drawn order, parent among earlier ones or -1
     order = draw(st.permutations(list(range(k)))) if k > 1 else list(range(k))
     parent = [-1] * k
+    # shape class: uniform parent choice makes deep chains rare (Hypothesis also favours small integers), so the
+    # attachment rule is itself drawn: random / chain (attach to the previous clone) / caterpillar (one of the last two)
+    # / bushy (attach near the first clones)
+    shape = draw(st.sampled_from(["random", "chain", "caterpillar", "random", "bushy"])) if k > 2 else "random"
     for j, b in enumerate(order):
-        if n_roots is not None:
-            p = -1 if j < n_roots else draw(st.integers(0, j - 1))
+        lo = 0 if (n_roots is not None and j >= n_roots) else -1
+        if n_roots is not None and j < n_roots:
+            p = -1
+        elif shape == "chain" and j >= 1:
+            p = j - 1 if draw(st.integers(0, 5)) > 0 else draw(st.integers(lo, j - 1))
+        elif shape == "caterpillar" and j >= 2:
+            p = j - 1 - draw(st.integers(0, 1))
+        elif shape == "bushy" and j >= 1:
+            p = draw(st.integers(lo, min(1, j - 1)))
         else:
-            p = draw(st.integers(-1, j - 1))
+            p = draw(st.integers(lo, j - 1))
         parent[b] = -1 if p < 0 else order[p]
     mt = MTree(blocks, parent, out)
     if empty_blocks:
